@@ -32,6 +32,8 @@ DIRECTED = [
     "html { --a: #777; color: var(--a) } @media print { .p { color: #777; background-color: #fff } @supports (x:y) { .q { color: #aaa } } }\n",
     ".h { color: hsl(0, 0%, 50%); background-color: white }\n",
     ".i { color: #777 !important; color: #888 }\n",
+    ":root { --Muted: #cccccc; --muted: #333333; --Accent: #777777; --accent: #111111 }\n.note { color: var(--Muted) }\n.link { color: var(--Accent); background-color: #fff }\n",
+    "@supports (display: grid) { @media (min-width: 1px) { .hint { color: #777777; background-color: #ffffff } } }\n",
 ]
 
 
